@@ -53,7 +53,7 @@ Qed.
 
 Fixpoint eval_nat (e : expr) : forall rho k k', krel k k' -> h (eval O R err rho e k) = eval O R' err' rho e k'.
 Proof.
-  destruct e as [v|x|e a|o a b|a rest|a b|a b|a|c a b|elt x it cond|elt x it cond|e key|e n|e|es|neg e c|f args];
+  destruct e as [v|x|e a|o a b|a rest|a b|a b|a|c a b|elt x it cond|elt x it cond|e key|e n|e|es|neg e c|f args|a b];
     intros rho k k' Hk; simpl.
   - apply Hk.
   - apply Hk.
@@ -87,6 +87,7 @@ Proof.
   - generalize (@nil val) as acc. induction args as [|e1 es IH]; intros acc.
     + destruct (ocall O f (rev acc)); auto; apply Hk.
     + apply eval_nat. intros v. destruct v; auto; apply IH.
+  - apply eval_nat. intros va. apply eval_nat. intros vb. destruct va, vb; auto; apply Hk.
 Qed.
 
 Variables (kret : env -> val -> R) (kret' : env -> val -> R').
